@@ -8,7 +8,13 @@ SetToSeq(S) == LET RECURSIVE f(_)
                    f(T) == IF T = {} THEN <<>> ELSE LET x == CHOOSE y \in T : \A z \in T : y <= z IN <<x>> \o f(T \ {x})
                IN f(S)
 
-Dump == pc = "done" =>
+Dump == pc \in {"done", "rejected"} =>
           PrintT(<<"TR", ToJson([c0 |-> c0, c1 |-> c1, il |-> il, maxl |-> maxl, svc |-> IF svc THEN 1 ELSE 0,
+                                 ok |-> IF pc = "done" THEN 1 ELSE 0,
                                  sig |-> SetToSeq(sig), n |-> out, recs |-> recs])>>)
+
+\* Rule = "any": per geometry, the worst case of the loop (all lines searched, array never full)
+DumpGeo == (pc = "done" /\ svc /\ maxl = c0 + c1 /\ sig = {}) =>
+          PrintT(<<"TR", ToJson([c0 |-> c0, c1 |-> c1, il |-> il, valid |-> IF Valid THEN 1 ELSE 0,
+                                 rows |-> Rows, far |-> far])>>)
 =============================================================================
